@@ -1807,6 +1807,20 @@ pub fn gen_args(c: Ctor, rng: &mut Rng, k: &GenKnobs) -> (Vec<u64>, Vec<Vec<u8>>
             (vec![sc(rng, 64), sc(rng, 32), sc(rng, 32), sc(rng, 32), sc(rng, 8), kind], vec![b])
         }
         Ctor::ElfSections => {
+            if rng.chance(1, 3) {
+                // shaped like a real section-header table: 32- or 64-bit entry
+                // size, a whole number of entries, a string-table index that is
+                // in range or one of ELF's reserved indices (SHN_XINDEX, …)
+                let entsize = if rng.chance(1, 2) { 40 } else { 64 };
+                let n = rng.below(7);
+                let shndx = match rng.below(6) {
+                    0 => 0xFFFF,
+                    1 => 0xFF00,
+                    2 => 0,
+                    _ => rng.below(n + 1),
+                };
+                return (vec![n, entsize, shndx], vec![rng.bytes((n * entsize) as usize)]);
+            }
             let l = gen_len(rng, k.max_len);
             (vec![sc(rng, 32), sc(rng, 32), sc(rng, 32)], vec![rng.bytes(l)])
         }
